@@ -553,8 +553,13 @@ def copy(a):
     return array(a)
 
 
-def linspace(a, b, num=50):
-    a, b = to_fr(a), to_fr(b)
+def linspace(a, b, num=50, endpoint=True):
+    a, b = (v if isinstance(v, S) else to_fr(_scalar(v.d.reshape(-1)[0]) if isinstance(v, ndarray) else v) for v in (a, b))
+    num = int(num)
+    if num == 1:
+        return ndarray(_norm(_list1d([a])), _raw=True)
+    if not endpoint:
+        return ndarray(_norm(_list1d([a + (b - a) * Fr(i, num) for i in range(num)])), _raw=True)
     return ndarray(_norm(_list1d([a + (b - a) * Fr(i, num - 1) for i in range(num)])), _raw=True)
 
 
